@@ -630,10 +630,18 @@ func (s *socket) Close(discard bool) {
 
 	if length := s.writeBuffer.Len(); length > 0 {
 		socket_log.Debug("there are %d remaining packets in the buffer, waiting for the 'drain' event", length)
-		s.Once("drain", func(...any) {
+		var onDrain events.Listener
+		onDrain = func(...any) {
+			// the drain of a flush that was already under way says nothing about packets
+			// buffered after it took its batch: wait until the buffer is really empty
+			if s.writeBuffer.Len() > 0 {
+				s.Once("drain", onDrain)
+				return
+			}
 			socket_log.Debug("all packets have been sent, closing the transport")
 			s.closeTransport(discard)
-		})
+		}
+		s.Once("drain", onDrain)
 		return
 	}
 
